@@ -167,6 +167,28 @@ def align_fns(ref, act):
                 m[a['path']] = r['path']
     tier(lambda x: (x['parent'], x['sig']), False)          # renamed in place
     tier(lambda x: (x['file'], x['sig']), True)             # moved between impl blocks / to a free function of the same file
+    # methods of LOCAL traits (`<KvBatch as Batchable>::create_fst`): trait and method may both have been renamed
+    def local_trait(x):
+        t = x.get('trait') or ''
+        return t and not t.startswith(('std::', 'core::', 'alloc::'))
+    tm = [r for r in ref if r['path'] not in ap and local_trait(r)]
+    tf = [a for a in act if a['path'] not in rp and local_trait(a)]
+
+    def self_ty(x):
+        q = x['path']
+        return q[1:q.index(' as ')] if q.startswith('<') and ' as ' in q else q
+    groups = {}
+    for r in tm:
+        groups.setdefault(json.dumps([self_ty(r), r['sig']]), [[], []])[0].append(r)
+    for a in tf:
+        groups.setdefault(json.dumps([self_ty(a), a['sig']]), [[], []])[1].append(a)
+    for k, (rs, as_) in groups.items():
+        if len(rs) == 1 and len(as_) == 1:
+            m[as_[0]['path']] = rs[0]['path']
+            # the declaration `Trait::method` that call sites name before resolution
+            ta, tr = as_[0]['trait'], rs[0]['trait']
+            ma, mr = as_[0]['path'].rsplit('::', 1)[1], rs[0]['path'].rsplit('::', 1)[1]
+            m[ta + '::' + ma] = tr + '::' + mr
     return m
 
 
